@@ -362,7 +362,9 @@ func ctorCase(k *vlib.Case, st *stats) {
 	nt := false
 	for i, t := range ts {
 		mode := wantMode(perm) | noise[i%len(noise)]
-		where := func(c string) string { return fmt.Sprintf("%s(mode=%v perm=%04o t=(%d,%d))", c, mode, perm, t.Unix(), t.Nanosecond()) }
+		where := func(c string) string {
+			return fmt.Sprintf("%s(mode=%v perm=%04o t=(%d,%d))", c, mode, perm, t.Unix(), t.Nanosecond())
+		}
 		m := mustNode(ft.FilePBDataWithStat(payload, uint64(len(payload)), mode, t), nil)
 		st.points++
 		a := compare(k, st, where("FilePBDataWithStat"), m, kinds[0], perm, 0, true, t, payload, uint64(len(payload)))
